@@ -340,7 +340,9 @@ def model_request(c):
     if op == "strand":
         return {"op": "strand", "enc": c["enc"], "via": c["via"], "codes": [_codes(c["enc"], s) for s in c["seqs"]],
                 "ivs": c["ivs"]}
-    return {"op": "translate", "rows": c["rows"]}
+    if op == "translate":
+        return {"op": "translate", "rows": c["rows"]}
+    return None   # translate_enc: implementation vs oracle only
 
 
 # --------------------------------------------------------------------------- cases
@@ -447,16 +449,24 @@ def nontrivial(c):
     return sum(len(r) for r in c["rows"]) >= 6 or any(b >= 97 for r in c["rows"] for b in r)
 
 
+def _has_nul(got):
+    return isinstance(got, dict) and any(b == 0 for r in got.get("rows", []) for b in r)
+
+
 def finding_key(c, got, exp):
+    """names the failing input class"""
     op = c["op"]
     if op == "rc":
         flat = [b for r in c["rows"] for b in r]
-        if c["enc"] == "ASCII" and any(b >= 97 for b in flat):
+        if c["enc"] == "ASCII" and any(b >= 97 for b in flat) and _has_nul(got):
             return "revcomp:ascii-lower-case"
         return f"revcomp:{c['enc']}"
     if op == "strand":
         flat = [b for s in c["seqs"] for b in s]
-        if c["enc"] == "ASCII" and any(b >= 97 for b in flat):
+        if isinstance(got, dict) and str(got.get("err", "")).startswith("other:") and \
+                len(c["ivs"]) >= sum(iv[2] - iv[1] for iv in c["ivs"]):
+            return "strand:raises-when-intervals>=extracted-letters"
+        if c["enc"] == "ASCII" and any(b >= 97 for b in flat) and _has_nul(got):
             return "strand:ascii-lower-case"
         return f"strand:{c['via']}:{c['enc']}"
     return "translate:" + c.get("via", "list").split(":")[0]
